@@ -7,6 +7,7 @@ package main
 import (
 	"context"
 	"errors"
+	"os"
 	"sort"
 	"strconv"
 	"strings"
@@ -411,4 +412,26 @@ func main() {
 		}
 	}
 	r.Finish()
+}
+
+type replayLine struct{ lhs, rhs string }
+
+func readReplay(path string) ([]replayLine, error) {
+	b, err := os.ReadFile(path)
+	if err != nil {
+		return nil, err
+	}
+	var out []replayLine
+	for _, l := range strings.Split(string(b), "\n") {
+		l = strings.TrimSpace(l)
+		if l == "" || strings.HasPrefix(l, "#") {
+			continue
+		}
+		rl := replayLine{lhs: l}
+		if i := strings.Index(l, " => "); i >= 0 {
+			rl.lhs, rl.rhs = l[:i], l[i+4:]
+		}
+		out = append(out, rl)
+	}
+	return out, nil
 }
